@@ -15,8 +15,8 @@ CLAIMED = {
   note="Trusted: symx value model; log as uninterpreted strictly monotone function (formulas compared modulo the product rule). Outside: tables above the bound, the resampling variant (np.random).",
   ref="3 C06"),
  "C05": dict(
-  text="Bounded model checking of the real code: every ObsFcstBased metric (7 with all 18 aggregator choices, 13 without), Within, Conditional, XConditional, Count on 0..2/3 symbolic pairs (finite or NaN); per path z3 proves result == literature definition on the valid pairs, undefined -> non-finite, perfect forecast -> perfect_score, nothing better than perfect_score. rankcorr/kendallcorr: guards and argument flow only (SciPy is a stub).",
-  note="Trusted: symx value model and validated NumPy models (mean/std/percentile/sort/corrcoef); exp/log uninterpreted. Non-linear metrics are bounded one pair lower. Outside: IEEE rounding, vectors above the bound, SciPy rank statistics.",
+  text="Bounded model checking of the real code: every ObsFcstBased metric (7 with all 18 aggregator choices, 13 without), Within, Conditional, XConditional, Count on 0..2/3 symbolic pairs (finite or NaN); per path z3 proves result == literature definition on the valid pairs, undefined -> non-finite, perfect forecast -> perfect_score, nothing better than perfect_score. rankcorr/kendallcorr against Spearman's rho / Kendall's tau-b (SciPy's two functions are validated library models); -x obs / -x fcst conditioning and obs/fcst statistics through a real Data.",
+  note="Trusted: symx value model and validated NumPy models (mean/std/percentile/sort/corrcoef); exp/log uninterpreted. Non-linear metrics are bounded one pair lower. Outside: IEEE rounding, vectors above the bound, tie order of np.argsort (unspecified in NumPy: such paths are inconclusive).",
   ref="3 C05"),
  "C01": dict(
   text="Bounded model checking of the real Data.__init__/get_scores/_get_score/_apply_axis: 2 (thorough 3) in-memory inputs (+ variants: an input without observations, a climatology, an input with extra/reordered coverage) whose every obs/fcst/other cell is a symbolic real-or-NaN; for 5 field sets x 9-11 axis slices z3 proves on every feasible path that each input returns exactly the cases where every input has every requested quantity, in storage order with the stored values, that an obs-less input gets the shared obs, and that another input's forecast values never matter.",
@@ -71,15 +71,15 @@ CLAIMED = {
   note="Trusted: get_input/Data/output actions are recording stubs here (their behaviour: C01-C12); arange/round models (validated). Outside: IEEE rounding of decimal grids, arbitrary-character argument strings (malformed syntax is decided on a fixed list of shapes), the effect of options on rendered plots (C17).",
   ref="3 C13"),
  "C16": dict(
-  text="Partial. Bounded model checking of Output.plot/_plot_core for the standard line plot (location/time/no), obsfcst, qq, sort, hist and freq on a real Data object with symbolic cells, observed at the matplotlib.pyplot boundary: one series per input in command-line order, each point = the defining statistic of its slice over the common valid cases, sorted values / percentiles, bin heights, every value in exactly one bin.",
+  text="Partial. Bounded model checking of Output.plot/_plot_core for the standard line plot (location/time/no), obsfcst (with and without quantile lines), qq, sort, hist and freq, and of the binning helper util.bin, on a real Data object with symbolic cells, observed at the matplotlib.pyplot boundary: one series per input in command-line order, each point = the defining statistic of its slice over the common valid cases, sorted values / percentiles, bin heights, every value in exactly one bin.",
   note="NOT decided: the other 22 diagrams, maps, rank and impact views, and whether matplotlib draws what it is given. pyplot is a recording stub in both the symbolic run and the replay.",
   ref="3 C16"),
  "C17": dict(
-  text="Partial. Bounded model checking of the dataflow of 45 appearance options from argv through verif.driver.run, the output object's attributes and Output.plot/_adjust_axis/_legend/_save_plot/_get_plot_options/_add_annotation to the documented matplotlib call: the option's symbolic value arrives as the documented argument (set_rotation, grid(lw=), set_title(fontsize=), savefig(dpi=), set_size_inches, subplots_adjust, plot(color/ls/lw/marker/ms), legend(loc/prop), text(fontsize) ...); thorough: all ordered pairs of 9 options keep both effects.",
+  text="Partial. Bounded model checking of the dataflow of 45 appearance options from argv through verif.driver.run, the output object's attributes and Output.plot/_adjust_axis/_legend/_save_plot/_get_plot_options/_add_annotation to the documented matplotlib call: the option's symbolic value arrives as the documented argument (set_rotation, grid(lw=), set_title(fontsize=), savefig(dpi=), set_size_inches, subplots_adjust, plot(color/ls/lw/marker/ms), legend(loc/prop), text(fontsize) ...); limits combined with ticks are applied in the order that keeps the limits; thorough: all ordered pairs of 9 options keep both effects.",
   note="NOT decided: what matplotlib does with the call, the image format and pixel size. pyplot/Axes/Figure are recording stubs in both the symbolic run and the replay.",
   ref="3 C17"),
  "C19": dict(
-  text="Partial. Exploration through the engine of verif.driver.run -> real Data -> real metric -> Standard._get_x_y -> csv for every valid metric class (70) + 6 diagrams x 4 (thorough: all 19) -x dimensions x 3-6 bin-type/aggregator variants x dataset classes chosen by symbolic flags (a location and/or a time entirely missing, constant forecasts, zero observations, perfect forecast): every run returns or exits through verif.util.error with non-zero status; any other exception is replayed on the unmodified code and reported.",
+  text="Partial. Exploration through the engine of verif.driver.run -> real Data -> real metric -> Standard._get_x_y -> csv for every valid metric class (70) + 6 diagrams x 4 (thorough: all 19) -x dimensions x 3-6 bin-type/aggregator variants x dataset classes chosen by symbolic flags (a location and/or a time entirely missing, constant forecasts, zero observations, perfect forecast), of the text and csv writers x obs/fcst/threshold/leadtime axes x bin types x -r, and of every diagram / output type up to a pyplot recording stub: every run returns or exits through verif.util.error with non-zero status; any other exception is replayed on the unmodified code and reported.",
   note="This is the weakest claim: after the flags are decided the cells are concrete, so the solver only enumerates the feasible flag/option combinations (bounded configuration exploration, not value-level reasoning). NOT decided: output types that render (plot, map, rank, maprank, impact, mapimpact) and the diagrams' drawing code.",
   ref="3 C19"),
  "C20": dict(
